@@ -237,7 +237,7 @@ def parse_expr(s):
 
 
 KEYWORDS = ('spec', 'define', 'axiom', 'lemma', 'func', 'requires', 'ensures', 'assigns', 'allocates',
-            'loop', 'invariant', 'decreases', 'flag', 'ghostvar', 'call', 'import', 'at', 'property', 'end', 'step', 'send', 'guarded', 'uses', 'recv', 'return')
+            'loop', 'invariant', 'decreases', 'flag', 'ghostvar', 'call', 'import', 'at', 'property', 'end', 'step', 'send', 'guarded', 'uses', 'recv', 'return', 'ghostset')
 
 
 def _label(s):
@@ -344,6 +344,17 @@ def parse_contract_text(text, fname='?'):
                 lab, r = _label(rest)
                 cur.setdefault('returns', []).append((lab, parse_expr(r), r))
                 curloop = None
+            elif kw == 'ghostset':
+                # ghostset name := expr            (integer ghost variable, assigned when the function returns)
+                # ghostset name(a T, b U) := expr  (ghost function of the heap, redefined pointwise when the function returns)
+                m = re.match(r'\s*([A-Za-z_][A-Za-z_0-9]*)\s*(\((.*?)\))?\s*:=\s*(.*)$', rest, re.S)
+                if not m:
+                    raise SpecError('ghostset syntax')
+                binders = []
+                if m.group(3):
+                    binders = Parser(m.group(3)).parse_binders()
+                cur.setdefault('ghostsets', []).append((m.group(1), binders, parse_expr(m.group(4)), rest))
+                curloop = None
             elif kw == 'uses':
                 cur.setdefault('uses', []).extend(x.strip() for x in rest.split(',') if x.strip())
             elif kw == 'recv':
@@ -420,7 +431,7 @@ def expand_flags(c):
 
 
 def merge_contracts(cs):
-    out = {'specs': {}, 'defines': {}, 'axioms': [], 'lemmas': [], 'funcs': {}}
+    out = {'specs': {}, 'defines': {}, 'axioms': [], 'lemmas': [], 'funcs': {}, 'ghostfuncs': {}}
     for c in cs:
         out['specs'].update(c['specs'])
         out['defines'].update(c['defines'])
@@ -432,4 +443,10 @@ def merge_contracts(cs):
             v['file'] = c.get('file')
             expand_flags(v)
             out['funcs'][k] = v
+            for (gname, binders, ast, txt) in v.get('ghostsets', []):
+                if binders:
+                    import os
+                    f_ = c.get('file') or ''
+                    pk = os.path.dirname(f_[len('/repo/'):]) if f_.startswith('/repo/') else ''
+                    out.setdefault('ghostfuncs', {})[gname] = (binders, pk)
     return out
